@@ -158,9 +158,6 @@ class RepNewTask(Task):
     x: Param[int]
 
     def execute(self):
-        (Path(self.__xpm_stdout__).parent / "data.txt").write_text(f"data {self.x}\n") if hasattr(
-            self, "__xpm_stdout__"
-        ) else None
         print(self.x)  # noqa: T201
 
 
@@ -208,5 +205,6 @@ REP_OLD_CLASSES = [RepOldTask, RepSameOld, RepOldCfg]
 
 def rep_deprecate_all():
     for cls in REP_OLD_CLASSES:
-        if not cls.__xpmtype__.deprecated:
-            cls.__xpmtype__.deprecate()
+        xpmtype = cls.__getxpmtype__()
+        if not xpmtype.deprecated:
+            xpmtype.deprecate()
